@@ -365,6 +365,9 @@ func (w *writer) field(depth int, kw string, f *Field) {
 	case "array":
 		leaf = t.Items
 		itemPrefix = "items." + leaf.Kind + "."
+		if t.SingleForm != "" {
+			body = append(body, "ext.singleForm = "+q(t.SingleForm))
+		}
 		if r := t.Rules; r != nil {
 			if r.MinItems != nil {
 				body = append(body, "rules.minItems = "+u(r.MinItems))
@@ -379,6 +382,9 @@ func (w *writer) field(depth int, kw string, f *Field) {
 	case "map":
 		leaf = t.Items
 		itemPrefix = "itemSchema." + leaf.Kind + "."
+		if t.SingleForm != "" {
+			body = append(body, "ext.singleForm = "+q(t.SingleForm))
+		}
 		if r := t.Rules; r != nil {
 			if r.MinPairs != nil {
 				body = append(body, "rules.minPairs = "+u(r.MinPairs))
